@@ -1,1 +1,2 @@
 import PotasscoVerif.Props.C09
+import PotasscoVerif.Props.C09l
